@@ -151,8 +151,8 @@ def ceilJS (x : Nat) : Nat :=
 def floorGo (x : Nat) : Nat :=
   if isZero x || isNaN x || isInf x then x
   else if sign x == 1 then
-    let d := truncGo (neg x)
-    if hasFrac x then neg (encodeNat (truncMag x + 1)) else neg d
+    -- d ≥ 0, so `-d` sets the sign bit
+    if hasFrac x then two63 + encodeNat (truncMag x + 1) else two63 + truncGo (neg x)
   else truncGo x
 
 /-- upstream floor.go `Ceil`: `-Floor(-x)` -/
